@@ -452,7 +452,8 @@ def harness_farm(ctx, groups, make_src, cfgs, args, batch=6, opt="-O1", tag="h",
     ctx.programs += len(built)
     for r in allrecs:
         if r.get("k") == "crash":
-            ctx.violation({"crash": r["inflight"]}, "the library raised fatal signal %d inside a public call: %s [%s]" % (r["sig"], r["inflight"], r["cfg"]), detail=r)
+            ctx.violation({"crash": r["inflight"]}, ("the library did not return within the watchdog time from a public call: %s [%s]" % (r["inflight"], r["cfg"])) if r["sig"] == 14
+                          else ("the library raised fatal signal %d inside a public call: %s [%s]" % (r["sig"], r["inflight"], r["cfg"])), detail=r)
     return allrecs, dropped, len(built)
 
 
